@@ -22,7 +22,14 @@ def main():
     subprocess.run(["git", "-C", "/repo", "apply", patch], check=True)
     results = {}
     try:
+        seeds = os.environ.get("SEEDS", "").split()
         for c in checks:
+            for sd in seeds:
+                env = dict(os.environ, VERIF_SEED=sd)
+                q = subprocess.run([os.path.join(VERIF, "check"), c, "--tier", "quick"], stdout=subprocess.PIPE,
+                                   stderr=subprocess.STDOUT, cwd=VERIF, env=env)
+                meta.setdefault("detection_by_seed", {}).setdefault(c, {})[sd] = q.returncode
+                print(sid, c, "seed", sd, "exit", q.returncode)
             p = subprocess.run([os.path.join(VERIF, "check"), c, "--tier", "quick"], stdout=subprocess.PIPE,
                                stderr=subprocess.STDOUT, cwd=VERIF)
             out = p.stdout.decode()
